@@ -26,6 +26,8 @@ func runC04(w *World) *Result {
 	DispatchRule(w, r, "R-C04-dispatch")
 	c04Once(w, r)
 	StaleListRule(w, r, "R-C04-once")
+	r.Rule("R-C04-wiring", "every Converter parameter is fed from the node child it stands for (operands, names and flags are not crossed)", 30)
+	WiringRule(w, r, "R-C04-wiring", nil)
 	r.Rule("R-C04-srcorder", "slots evaluated in a fixed order by the driver hold expressions parsed in that order", 12)
 	c04SrcOrder(w, r)
 	r.Rule("R-C04-eager", "the branches of an if-chain hold the block parser's results: no later branch is nested into an earlier one (all conditions are evaluated with the chain)", 3)
